@@ -231,6 +231,7 @@ partial def loop (h : IO.FS.Stream) (out : IO.FS.Stream) : IO Unit := do
   let line ← h.getLine
   if line.isEmpty then return ()
   out.putStrLn (handle line)
+  out.flush
   loop h out
 
 def main : IO Unit := do
